@@ -197,13 +197,11 @@ Proof.
     assert (Hex : exists y, In y ks /\ lex_cmp (r_start u) y <> Gt).
     { exists tombstone. split; [assumption|]. reflexivity || (unfold r_start, tombstone; simpl; discriminate). }
     destruct (seek_below (r_start u) ks Hs Hex) as [c [E [Hd Hcur]]].
-    replace (match Scan.until true u with
-             | Some u0 => [1%N] ++ u0 ++ [1%N]
-             | None => [1%N; 255%N; 255%N; 255%N; 255%N; 1%N]
-             end) with (r_start u) by (unfold r_start, ut, Scan.until; destruct u; reflexivity).
-    Show. rewrite E.
-    replace (match Scan.since true s with Some s0 => [1%N] ++ s0 | None => [1%N] end) with (r_stop s)
-      by (unfold r_stop, Scan.since; destruct s; reflexivity).
+    match goal with |- context [set_range ks ?k] =>
+      replace k with (r_start u) by (unfold r_start, ut, Scan.until; destruct u; reflexivity) end.
+    match goal with |- context [scan_range ks _ _ ?st _ _] =>
+      replace st with (r_stop s) by (unfold r_stop, Scan.since; destruct s; reflexivity) end.
+    rewrite E.
     rewrite scan_range_refines.
     + rewrite Hd. simpl rev at 1. cbn [app]. f_equal. unfold spec_range, below. rewrite <- filter_rev.
       apply flat_map_filter_gen. intros key Hk. apply in_rev in Hk.
@@ -227,8 +225,8 @@ Proof.
       rewrite (scanner_blocks ks (idx_prefix i) true s u events _ (m1 :: rest) Hs Ec Hne' Hokm).
       * f_equal. rewrite flat_map_map. apply flat_map_ext_in. intros m _.
         assert (Ei : match i with IxIds => true | _ => false end = false) by (destruct i; [discriminate|reflexivity..]).
-        rewrite Ei. apply (timed_contrib ks s u events Hs Hwf Hshaped Hlu).
-      * apply Forall_forall. intros cm _. apply (timed_mono ks s u Hlu).
+        rewrite Ei. apply (timed_contrib ks s u events Hwf Hshaped Hls Hlu).
+      * apply Forall_forall. intros cm _. apply (timed_mono ks s u Hls Hlu).
       * apply (timed_tail ks s u events (idx_prefix i)).
         -- destruct i; try discriminate; exact Hfloor.
         -- apply Forall_forall. intros cm Hin. apply in_map_iff in Hin. destruct Hin as [m [<- Hm]].
